@@ -2,6 +2,7 @@ package main
 
 import (
 	"go/token"
+	"strings"
 
 	"golang.org/x/tools/go/ssa"
 )
@@ -92,4 +93,86 @@ func (p CPath) objFields(obj *ssa.Alloc) map[string]ssa.Value {
 		out[sel] = p.Resolve(st.Val)
 	}
 	return out
+}
+
+// Relation is a comparison whose outcome is known on a path.
+type Relation struct {
+	Op   token.Token // the relation that HOLDS on the path (EQL, NEQ, LSS, …)
+	X, Y ssa.Value
+	If   *ssa.If
+}
+
+func negateOp(op token.Token) token.Token {
+	switch op {
+	case token.EQL:
+		return token.NEQ
+	case token.NEQ:
+		return token.EQL
+	case token.LSS:
+		return token.GEQ
+	case token.GEQ:
+		return token.LSS
+	case token.GTR:
+		return token.LEQ
+	case token.LEQ:
+		return token.GTR
+	}
+	return token.ILLEGAL
+}
+
+// relations lists the comparisons decided by the branches taken along the
+// path: the condition of each branch is followed through negations, phis and
+// the results of spliced helpers (a helper returning `a == b` decides a == b
+// in its caller) down to a binary comparison.
+func (p CPath) relations() []Relation {
+	var out []Relation
+	for _, tk := range p.Ifs() {
+		v := tk.If.Cond
+		holds := tk.Arm
+		for i := 0; i < 16; i++ {
+			if u, ok := v.(*ssa.UnOp); ok && u.Op == token.NOT {
+				holds = !holds
+				v = u.X
+				continue
+			}
+			nv := p.Resolve(v)
+			if nv == v {
+				break
+			}
+			v = nv
+		}
+		bo, ok := v.(*ssa.BinOp)
+		if !ok {
+			continue
+		}
+		op := bo.Op
+		if !holds {
+			op = negateOp(op)
+		}
+		if op == token.ILLEGAL {
+			continue
+		}
+		out = append(out, Relation{Op: op, X: bo.X, Y: bo.Y, If: tk.If})
+	}
+	return out
+}
+
+// loadOfField: v (resolved on the path) is a load of field sel (a selector
+// string) of the object base denotes.
+func (p CPath) loadOfField(v ssa.Value, base ssa.Value, sel string) bool {
+	ld, ok := p.Resolve(stripConv(v)).(*ssa.UnOp)
+	if !ok || ld.Op != token.MUL {
+		return false
+	}
+	ap := p.AP(ld.X)
+	if ap.Root == base && ap.SelString() == sel {
+		return true
+	}
+	// base itself may denote a location reached through spliced helpers
+	bp := p.AP(base)
+	if bp.Root != ap.Root {
+		return false
+	}
+	want := strings.TrimPrefix(bp.SelString()+"."+sel, ".")
+	return ap.SelString() == want
 }
